@@ -1,6 +1,188 @@
 import Jap.Core.Namespace
 import Jap.Gen.NsTables
+import Jap.Lemmas.NamespaceRun
+import Jap.Lemmas.NamespaceSpec
+/-!
+# C11 — Namespace behaves as a nested mapping addressed by dotted keys
+
+Model: `Jap.NS` (Core/Namespace.lean), a transcription of `_namespace.py`.
+Specification: the nested dictionary with *plain* keys, operated by the one-pass
+`setK`/`getK`/`delK` (Lemmas/Namespace.lean), whose dictionary laws are the
+`C11_spec_*` theorems.  Abstraction: `absKV` forgets the clash marks.
+
+FULL STATEMENT (what the property asks): for every operation sequence, the
+stored namespace abstracts to the dictionary obtained by running the same
+sequence on the specification, and every read agrees.
+
+It is FALSE for the code (and the faithful model) when a key path runs through a
+plain `dict` value held in the namespace: `C11_through_dict_counterexample`
+below (open known finding C11-through-dict).  What is proved is the full
+statement under exactly that guard (`noDict`, a decidable predicate on the
+state and the key), for all clash tables, keys, values and sequence lengths.
+-/
 namespace Jap.Props.C11
 open Jap.NS
-theorem placeholder : (1 : Nat) = 1 := rfl
+
+/-! ## the specification is a nested dictionary -/
+
+/-- read-your-write at any depth -/
+theorem C11_spec_get_set_same (k : List SKey) (v : V) (d : KV) (hk : k ≠ []) :
+    getK k (setK k v d) = some v := getK_setK_same k v d hk
+
+/-- a write does not affect a key that branches off -/
+theorem C11_spec_frame (c : List SKey) (a b : SKey) (p q : List SKey) (v : V) (d : KV) (h : a ≠ b) :
+    getK (c ++ b :: q) (setK (c ++ a :: p) v d) = getK (c ++ b :: q) d :=
+  getK_setK_diverge c a b p q v d h
+
+/-- any sequence of assignments to `k` or to keys diverging from `k` leaves the LAST value written to `k` -/
+theorem C11_spec_last_writer_wins (k : List SKey) (hk : k ≠ []) (as : List (List SKey × V)) (d : KV)
+    (h : ∀ a ∈ as, a.1 = k ∨ Diverge a.1 k) :
+    getK k (foldSet as d) = (lastWrite k as).or (getK k d) := fold_last k hk as d h
+
+/-- after a delete the key is gone; deleting an absent key changes nothing -/
+theorem C11_spec_delete (k : List SKey) (d : KV) (hu : uniqKV d) :
+    getK k (delK k d) = .none ∧ (getK k d = .none → delK k d = d) :=
+  ⟨getK_delK_same k d hu, delK_of_getK_none k d⟩
+
+/-! ## the code refines the specification (every clash table, every key, every value) -/
+
+/-- `ns[key] = v`: the stored namespace abstracts to the dictionary with `key ↦ v`; marks never leak -/
+theorem C11_set_refines (clash : List String) (path : List String) (leaf : String) (item : V) (root : KV)
+    (hc : canonKV clash root = true) (hv : canonV clash item = true)
+    (hnd : noDict (path.map (mark clash)) (.ns root) = true) :
+    absKV (setSegs (path.map (mark clash)) (mark clash leaf) item root)
+      = setK ((path ++ [leaf]).map plain) (absV item) (absKV root)
+    ∧ canonKV clash (setSegs (path.map (mark clash)) (mark clash leaf) item root) = true := by
+  rw [setSegs_eq_setK _ _ _ _ hnd, ← map_append_mark]
+  exact abs_setK clash item hv (path ++ [leaf]) root hc
+
+/-- `ns[key]`: returns exactly what the dictionary holds, `KeyError` exactly when it holds nothing -/
+theorem C11_get_refines (clash : List String) (path : List String) (leaf : String) (root : KV)
+    (hc : canonKV clash root = true) (hnd : noDict (path.map (mark clash)) (.ns root) = true) :
+    match getSegs (path.map (mark clash)) (mark clash leaf) root with
+    | .ok v => getK ((path ++ [leaf]).map plain) (absKV root) = some (absV v)
+    | .error e => e = .key ∧ getK ((path ++ [leaf]).map plain) (absKV root) = .none := by
+  rw [getSegs_eq_getK _ _ _ hnd, abs_getK clash (path ++ [leaf]) root hc, map_append_mark]
+  cases getK (path.map (mark clash) ++ [mark clash leaf]) root <;> simp
+
+/-- `key in ns` is dictionary membership -/
+theorem C11_contains_iff (clash : List String) (path : List String) (leaf : String) (root : KV)
+    (hc : canonKV clash root = true) (hnd : noDict (path.map (mark clash)) (.ns root) = true) :
+    containsSegs (path.map (mark clash)) (mark clash leaf) root
+      = (getK ((path ++ [leaf]).map plain) (absKV root)).isSome := by
+  have := C11_get_refines clash path leaf root hc hnd
+  simp only [List.map_append, List.map_cons, List.map_nil] at this ⊢
+  unfold containsSegs
+  cases h : getSegs (path.map (mark clash)) (mark clash leaf) root with
+  | ok v => simp only [h] at this; simp [this]
+  | error e => simp only [h] at this; simp [this.2]
+
+/-- `del ns[key]`: succeeds exactly when the key is present, and removes exactly that key -/
+theorem C11_del_refines (clash : List String) (path : List String) (leaf : String) (root : KV)
+    (hc : canonKV clash root = true) (hnd : noDict (path.map (mark clash)) (.ns root) = true) :
+    match delSegs (path.map (mark clash)) (mark clash leaf) root with
+    | .ok r' => absKV r' = delK ((path ++ [leaf]).map plain) (absKV root)
+                ∧ (getK ((path ++ [leaf]).map plain) (absKV root)).isSome ∧ canonKV clash r' = true
+    | .error _ => getK ((path ++ [leaf]).map plain) (absKV root) = .none := by
+  obtain ⟨h1, h2⟩ := delSegs_spec _ (mark clash leaf) root hnd
+  obtain ⟨a1, a2⟩ := abs_delK clash (path ++ [leaf]) root hc
+  have hg := abs_getK clash (path ++ [leaf]) root hc
+  rw [map_append_mark] at a1 a2 hg
+  cases hd : delSegs (path.map (mark clash)) (mark clash leaf) root with
+  | ok r' =>
+    obtain ⟨e, hs⟩ := h1 r' hd
+    subst e
+    refine ⟨a1, ?_, a2⟩
+    rw [hg]; cases hh : getK (path.map (mark clash) ++ [mark clash leaf]) root <;> simp [hh] at hs ⊢
+  | error e =>
+    have := h2 e hd
+    simp only []
+    rw [hg, this]; rfl
+
+/-- `ns.pop(key, default)`: the dictionary's value or the default; the key is removed -/
+theorem C11_pop_refines (clash : List String) (path : List String) (leaf : String) (dflt : V) (root : KV)
+    (hc : canonKV clash root = true) (hnd : noDict (path.map (mark clash)) (.ns root) = true) :
+    ∃ v r', popSegs (path.map (mark clash)) (mark clash leaf) dflt root = .ok (v, r')
+      ∧ absKV r' = delK ((path ++ [leaf]).map plain) (absKV root)
+      ∧ (getK ((path ++ [leaf]).map plain) (absKV root) = .none → v = dflt)
+      ∧ (∀ w, getK (path.map (mark clash) ++ [mark clash leaf]) root = some w → v = w)
+      ∧ canonKV clash r' = true := by
+  obtain ⟨a1, a2⟩ := abs_delK clash (path ++ [leaf]) root hc
+  have hg := abs_getK clash (path ++ [leaf]) root hc
+  rw [map_append_mark] at a1 a2 hg
+  refine ⟨_, _, popSegs_spec _ (mark clash leaf) dflt root hnd, a1, ?_, ?_, a2⟩
+  · intro h
+    rw [hg] at h
+    cases hh : getK (path.map (mark clash) ++ [mark clash leaf]) root <;> simp [hh] at h ⊢
+  · intro w hw
+    simp [hw]
+
+/-- every reachable state: any sequence of set / del / pop, of any length -/
+theorem C11_refines (clash : List String) (ops : List Op) (root : KV)
+    (hc : canonKV clash root = true) (hs : safe clash ops root = true) :
+    absKV (runC clash ops root) = runS ops (absKV root) ∧ canonKV clash (runC clash ops root) = true :=
+  run_refines clash ops root hc hs
+
+/-- names that coincide with Namespace's own method names are stored and returned like any other name -/
+theorem C11_clash (clash : List String) (name : String) (v : V) (root : KV)
+    (hc : canonKV clash root = true) :
+    getSegs [] (mark clash name) (setSegs [] (mark clash name) v root) = .ok v
+    ∧ lookup (plain name) (absKV (setSegs [] (mark clash name) v root)) = some (absV v) := by
+  constructor
+  · simp [getSegs, setSegs, walk, updateAt, unNs, lookup_insert_same]
+  · simp only [setSegs, walk, updateAt, unNs]
+    rw [abs_insert clash name v root hc]
+    exact lookup_insert_same _ _ _
+
+/-! iteration (`items`, hence `keys` and `values`, with or without branches) yields plain dotted keys and the
+   abstracted values: it does not see the marks -/
+mutual
+theorem C11_items_plain (b : Bool) : ∀ kvs : KV,
+    items b (absKV kvs) = (items b kvs).map (fun kv => (kv.1, absV kv.2))
+  | [] => rfl
+  | (k, .ns sub) :: r => by
+    cases b <;>
+    simp [absKV, absV, items, unmark, plain, C11_itemsPref_plain _ k.name sub, C11_items_plain _ r]
+  | (k, .none) :: r => by simp [absKV, absV, items, unmark, plain, C11_items_plain b r]
+  | (k, .atom _) :: r => by simp [absKV, absV, items, unmark, plain, C11_items_plain b r]
+  | (k, .lst _) :: r => by simp [absKV, absV, items, unmark, plain, C11_items_plain b r]
+  | (k, .tup _) :: r => by simp [absKV, absV, items, unmark, plain, C11_items_plain b r]
+  | (k, .dct _) :: r => by simp [absKV, absV, items, unmark, plain, C11_items_plain b r]
+theorem C11_itemsPref_plain (b : Bool) (pre : String) : ∀ kvs : KV,
+    itemsPref pre b (absKV kvs) = (itemsPref pre b kvs).map (fun kv => (kv.1, absV kv.2))
+  | [] => by simp [absKV, itemsPref]
+  | (k, .ns sub) :: r => by
+    cases b <;>
+    simp [absKV, absV, itemsPref, unmark, plain, C11_itemsPref_plain _ (pre ++ "." ++ k.name) sub, C11_itemsPref_plain _ pre r]
+  | (k, .none) :: r => by simp [absKV, absV, itemsPref, unmark, plain, C11_itemsPref_plain b pre r]
+  | (k, .atom _) :: r => by simp [absKV, absV, itemsPref, unmark, plain, C11_itemsPref_plain b pre r]
+  | (k, .lst _) :: r => by simp [absKV, absV, itemsPref, unmark, plain, C11_itemsPref_plain b pre r]
+  | (k, .tup _) :: r => by simp [absKV, absV, itemsPref, unmark, plain, C11_itemsPref_plain b pre r]
+  | (k, .dct _) :: r => by simp [absKV, absV, itemsPref, unmark, plain, C11_itemsPref_plain b pre r]
+end
+
+/-! ## non-vacuity: the hypotheses are met by non-trivial states, with the regenerated clash table -/
+
+/-- `keys`, `items`, `get` … really are in the table regenerated from `dir(Namespace)` -/
+example : ["items", "keys", "get", "update", "pop", "clone", "values", "as_dict"].all
+    (Jap.Gen.clashNames.contains ·) = true := by decide
+
+example :
+    let clash := Jap.Gen.clashNames
+    let root : KV := [(mark clash "a", .ns [(mark clash "keys", .atom 1)]), (mark clash "items", .lst [.atom 2])]
+    canonKV clash root = true ∧
+    safe clash [.set ["a", "get"] "pop" (.atom 3), .del ["a"] "keys", .pop [] "items"] root = true := by decide
+
+/-! ## the full statement fails through dict values (open finding C11-through-dict) -/
+
+/-- `ns['a'] = {}; ns['a.keys'] = 5` writes the marked name into the caller's dict … -/
+theorem C11_through_dict_counterexample :
+    setSegs [mark ["keys"] "a"] (mark ["keys"] "keys") (.atom 5) [(mark ["keys"] "a", .dct [])]
+      = [(⟨false, "a"⟩, .dct [(⟨true, "keys"⟩, .atom 5)])] := by rfl
+
+/-- … whereas the nested dictionary replaces the leaf by a branch holding the plain key -/
+theorem C11_through_dict_spec :
+    setK [plain "a", plain "keys"] (.atom 5) [(plain "a", .dct [])]
+      = [(plain "a", .ns [(plain "keys", .atom 5)])] := by rfl
+
 end Jap.Props.C11
